@@ -173,9 +173,54 @@ func (g *Gen) libSubject(depth int) *E {
 	return g.expr(TString, depth-1)
 }
 
+// fmtOperands: 1..3 scalar operands of mixed types for fmt.Sprint / fmt.Print / fmt.Sprintf
+func (g *Gen) fmtOperands(depth int) []*E {
+	ts := []*Ty{TInt, TString, TBool, TString, TInt}
+	if g.o.SmallInts {
+		ts = append(ts, TUint8, TInt8)
+	}
+	n := 1 + g.r.Intn(3)
+	var out []*E
+	for i := 0; i < n; i++ {
+		out = append(out, g.expr(ts[g.r.Intn(len(ts))], depth-1))
+	}
+	return out
+}
+
+func (g *Gen) sprintfExpr(depth int) *E {
+	ops := g.fmtOperands(depth)
+	texts := []string{"", "x=", " ", ",", "[", "]", "100%%", "-"}
+	f := texts[g.r.Intn(len(texts))]
+	for _, o := range ops {
+		verb := "%v"
+		if g.r.Intn(2) == 0 {
+			switch {
+			case o.Ty.IsInt():
+				verb = "%d"
+			case o.Ty.K == "string":
+				verb = "%s"
+			default:
+				verb = "%t"
+			}
+		}
+		f += verb + texts[g.r.Intn(len(texts))]
+	}
+	return &E{K: "lib", Ty: TString, Fn: "fmt.Sprintf", Args: append([]*E{{K: "str", Ty: TString, S: f}}, ops...)}
+}
+
+// fmtPrintStmt: fmt.Print with several operands (Go separates operands by a space only when neither
+// is a string), closed by a line end
+func (g *Gen) fmtPrintStmt(depth int) []*S {
+	return []*S{{K: "print", Fmt: true, Ln: false, Exprs: g.fmtOperands(depth)}, {K: "print", Fmt: true, Ln: true, Exprs: []*E{sS("|")}}}
+}
+
 func (g *Gen) libStrExpr(depth int) *E {
 	lib := func(fn string, args ...*E) *E { return &E{K: "lib", Ty: TString, Fn: fn, Args: args} }
-	switch g.r.Intn(9) {
+	switch g.r.Intn(12) {
+	case 9:
+		return lib("fmt.Sprint", g.fmtOperands(depth)...)
+	case 10, 11:
+		return g.sprintfExpr(depth)
 	case 0:
 		return lib("strings.Repeat", g.libSubject(depth), lit(TInt, int64(g.r.Intn(4))))
 	case 1:
